@@ -35,3 +35,16 @@ func TestStore(t *testing.T) {
 	}
 	fmt.Printf("SCENARIOS-RUN %d\n", n)
 }
+
+// TestDispatch runs rule sets / chain lists ($VERIF_IN) through the real ExtAuthZFilter.Check.
+func TestDispatch(t *testing.T) {
+	in, out := os.Getenv("VERIF_IN"), os.Getenv("VERIF_OUT")
+	if in == "" || out == "" {
+		t.Skip("VERIF_IN / VERIF_OUT not set")
+	}
+	n, err := runDispatchFile(in, out, os.Getenv("VERIF_TARGETS"))
+	if err != nil {
+		t.Fatalf("dispatch driver: %v (after %d cases)", err, n)
+	}
+	fmt.Printf("SCENARIOS-RUN %d\n", n)
+}
